@@ -29,12 +29,12 @@ def run(ctx):
     ctx.rule('C03.R6', 'staging file has a single owner (unique name, create_new, or staged under the lock)', floor=1)
     ctx.rule('C03.R7', 'client: Put.expected is the hash listed for that path; hub.rs has no fs mutator and builds no Delete', floor=3)
     hub = Hub(ctx, F, 'C03.R2')
-    r1(ctx, F, hub)
-    r2(ctx, F, hub)
-    r3_r5(ctx, F, hub)
-    r4(ctx, F)
-    staging_ownership(ctx, F, hub, 'C03.R6')
-    r7(ctx, F)
+    ctx.attempt(r1, ctx, F, hub)
+    ctx.attempt(r2, ctx, F, hub)
+    ctx.attempt(r3_r5, ctx, F, hub)
+    ctx.attempt(r4, ctx, F)
+    ctx.attempt(staging_ownership, ctx, F, hub, 'C03.R6')
+    ctx.attempt(r7, ctx, F)
 
 
 def r1(ctx, F, hub):
